@@ -40,12 +40,21 @@ func DecodeGrouped(data datatype.Grouped, application uint32, dictionary *dict.P
 // Serialize implements the datatype.Type interface.
 func (g *GroupedAVP) Serialize() []byte {
 	b := make([]byte, g.Len())
+	g.serializeTo(b)
+	return b
+}
+
+// serializeTo writes the members of the group to b, which must have
+// room for g.Len() bytes.
+func (g *GroupedAVP) serializeTo(b []byte) error {
 	var n int
 	for _, a := range g.AVP {
-		a.SerializeTo(b[n:])
+		if err := a.SerializeTo(b[n:]); err != nil {
+			return err
+		}
 		n += a.Len()
 	}
-	return b
+	return nil
 }
 
 // Len implements the datatype.Type interface.
